@@ -86,6 +86,11 @@ CHECKS = {
          "Literals are generated on the overflow boundaries (2^64/1024^k, 2^63), in every unit and letter case, with 0-3 spaces or a tab, in string and integer scalar form, plus negative, fractional, junk and near-miss units; the parsed value (from the Debug rendering) or the rejection must match the reference.",
          "Trusted: 128-bit reference arithmetic; Debug rendering of SizeTriggerConfig / TimeTriggerConfig. Outer whitespace and integer refresh_rate are don't-care.",
          "DESIGN.md §4 C20"),
+ "C16": ("exploration",
+         "runtime monitor: schedule function and driven-clock histories of the real TimeTrigger (verif_hooks clock) compared with an independent calendar model, per time zone in child processes, under a panic trap",
+         "For 11 zones (fixed offsets, northern/southern DST, 30-minute DST, midnight transitions, POSIX TZ strings) the schedule function is called on boundary grids, on every (k-th) second within 2 h of every offset change of 2023-2025, on random instants and with absurd multipliers; the result must be strictly in the future, never panic, and equal the calendar model's boundary whenever the zone's offset is constant in between. Histories drive a real rolling appender on a controlled clock and check firing instant, placement of the firing record and rescheduling.",
+         "Trusted: calendar.rs (own Gregorian/ISO-week arithmetic), chrono for the UTC offset of a zone at an instant, tzdata of the image (POSIX strings as fallback). Zones outside the list and n > 1000 (except the overflow catalogue) are not explored.",
+         "DESIGN.md §4 C16"),
 }
 
 NOT_YET = {}
